@@ -156,3 +156,9 @@ add("C05", "exploration", [
     {"name": "c05-exhaustive", "bin": "c05", "pkg": ZZ + "c05", "run": "^TestVerifC05Exhaustive$",
      "shards": {"quick": 4, "thorough": 16}, "timeout": {"quick": 900, "thorough": 3300}},
 ])
+
+add("C12", "exploration", [
+    {"name": "c12-reuse", "bin": "c12", "pkg": ZZ + "c12", "run": "^TestVerifC12Reuse$",
+     "shards": {"quick": 12, "thorough": 16}, "checks": {"quick": 12, "thorough": 500},
+     "timeout": {"quick": 900, "thorough": 3300}, "shrinktime": "90s"},
+])
